@@ -174,7 +174,13 @@ class ThreadSim(object):
             if signer is None:
                 return
             typ = "SAMLResponse" if ev.get("response") else "SAMLRequest"
-            info = http_redirect_message(ev["msg"], ev["dest"], ev.get("relay", ""), typ, sigalg=ev["alg"], signer=signer)
+            try:
+                info = http_redirect_message(ev["msg"], ev["dest"], ev.get("relay", ""), typ, sigalg=ev["alg"], signer=signer)
+            except Exception as e:
+                # an entity that obtained its signer for a supported algorithm can sign with it - the first message
+                # and every later one
+                self.viol(i, "held-signer-cannot-sign", "entity=%s alg=%s: %s: %s" % (ev["e"], ev["alg"], type(e).__name__, str(e)[:120]))
+                raise
             self.urls.append({"i": i, "e": ev["e"], "key": spec["key"], "alg": ev["alg"], "via": "held-signer",
                               "url": dict(info["headers"])["Location"], "typ": typ, "msg": ev["msg"], "relay": ev.get("relay", "")})
             self.count("step.sign")
